@@ -102,8 +102,21 @@ class C12(E1Prop):
             p = gen.pick_pr(w_, open_only=False)
             if p is None:
                 return None
-            ids = [x['id'] for x in w_.pr_table()]
+            table = w_.pr_table()
+            ids = [x['id'] for x in table]
             target = rng.choice(ids + [999, 'abc'])
+            merged = [x['id'] for x in table if x['state'] == 'MERGED']
+            unmerged = [x['id'] for x in table if x['state'] != 'MERGED']
+            if merged and unmerged and rng.random() < 0.35:
+                # several dependencies in mixed states, in any order
+                deps = [rng.choice(merged), rng.choice(unmerged)]
+                if rng.random() < 0.4:
+                    deps.append(rng.choice(ids))
+                rng.shuffle(deps)
+                return {'op': 'comment', 'p': p, 'actor': rng.choice(
+                    ['alice', 'bob', 'carol', 'root']),
+                    'text': '@%s %s' % (ROBOT, ' '.join(
+                        'after_pull_request=%s' % d for d in deps))}
             text = rng.choice([
                 '@%s wait' % ROBOT, '/wait', '@%s: wait' % ROBOT,
                 '@%s after_pull_request=%s' % (ROBOT, target),
@@ -124,6 +137,34 @@ class C12(E1Prop):
                     'match': rng.choice(['wait', 'after_pull_request',
                                          'after_pull_request', ''])}
         gen.g_delete_comment = g_delete_comment
+
+    def next_op(self, w, rng, step, nsteps):
+        if getattr(self, 'script', None):
+            return self.script.pop(0)
+        if step >= 3 and rng.random() < 0.3:
+            table = [p for p in w.pr_table() if p['author'] != ROBOT]
+            merged = [p for p in table if p['state'] == 'MERGED']
+            opened = [p for p in table if p['state'] == 'OPEN' and
+                      not is_foreign(p)]
+            if merged and len(opened) >= 2:
+                # a dependency story: X waits for an open and a merged PR
+                x, y = rng.sample(opened, 2)
+                deps = [y['id'], rng.choice(merged)['id']]
+                rng.shuffle(deps)
+                px = w.user_prs.index(x['id'])
+                self.script = [
+                    {'op': 'comment', 'p': px, 'actor': rng.choice(
+                        ['alice', 'bob', 'root']), 'dt': 5,
+                     'text': '@%s %s' % (ROBOT, rng.choice([' ', ', ']).join(
+                         'after_pull_request=%d' % d for d in deps))},
+                    {'op': 'ci_green_all', 'which': ['src', 'w', 'q'],
+                     'dt': 1},
+                    {'op': 'eval', 'p': px, 'dt': 1},
+                    {'op': 'ci_green_all', 'which': ['src', 'w', 'q'],
+                     'dt': 1},
+                    {'op': 'eval', 'p': px, 'dt': 1}]
+                return self.script.pop(0)
+        return self.gen.next(w)
 
     def check_job(self, w, rec):
         before, after = rec['refs_before'], rec['refs_after']
